@@ -137,8 +137,8 @@ pub fn fixed_tree() -> TreeSpec {
             EntrySpec::File { name: "empty.bin".into(), size: 0 },
             EntrySpec::File { name: "é.txt".into(), size: 64 },
             EntrySpec::File { name: "noext".into(), size: 100 },
-            EntrySpec::Dir { name: "sub".into(), index: Some(200), entries: vec![EntrySpec::File { name: "x.json".into(), size: 50 }, EntrySpec::Dir { name: "deep".into(), index: None, entries: vec![EntrySpec::File { name: "y.png".into(), size: 4097 }] }] },
-            EntrySpec::Dir { name: "noindex".into(), index: None, entries: vec![EntrySpec::File { name: "z.css".into(), size: 20 }] },
+            EntrySpec::Dir { name: "sub".into(), index: Some(200), html_twin: None, entries: vec![EntrySpec::File { name: "x.json".into(), size: 50 }, EntrySpec::Dir { name: "deep".into(), index: None, html_twin: None, entries: vec![EntrySpec::File { name: "y.png".into(), size: 4097 }] }] },
+            EntrySpec::Dir { name: "noindex".into(), index: None, html_twin: None, entries: vec![EntrySpec::File { name: "z.css".into(), size: 20 }] },
             EntrySpec::LinkToFile { name: "link.txt".into(), target: 0, style: 0 },
             EntrySpec::LinkToOutsideDir { name: "outdir".into() },
         ],
